@@ -165,7 +165,7 @@ def h_chain(ob):
         ctx = object()
         mws = [_mk_middleware(i, k, log, ctx, is_async) for i, k in enumerate(ob['stack'])]
         table, generic, percode = _table(env, ob['table'], log, ctx, is_async)
-        rig = Rig(env, ob['disp'], wire=wire, middlewares=mws, error_handlers=table)
+        rig = Rig(env, ob['disp'], wire=wire, middlewares=mws, error_handlers=table, suspend=False)      # event ORDER across batch elements is compared: no interleaving (C10 explores the schedules)
         req = ob['req']
         rid = env.int('rid')
 
